@@ -17,6 +17,7 @@ type wordSpace struct {
 	Seed    uint32
 	Depth   int
 	Letters []explore.Op
+	Rotate  bool // rotate the answer to "draw a fresh hash seed" on every Open
 }
 
 func opsJSON(w []explore.Op) []string {
